@@ -48,7 +48,8 @@ func buildType(v interface{}) reflect.Type {
 				}
 				tag += fmt.Sprintf(`validate:%q`, s)
 			}
-			sf = append(sf, reflect.StructField{Name: fm["n"].(string), Type: buildType(fm["ty"]), Tag: reflect.StructTag(tag)})
+			emb, _ := fm["emb"].(bool) // an embedded (anonymous) field
+			sf = append(sf, reflect.StructField{Name: fm["n"].(string), Type: buildType(fm["ty"]), Tag: reflect.StructTag(tag), Anonymous: emb})
 		}
 		return reflect.StructOf(sf)
 	case "iface":
